@@ -646,11 +646,11 @@ rc::Gen<Case> gen() {
     return rc::gen::map(rc::gen::tuple(nGen, range(0, 7), range(0, 1 << 20), range(0, 63)), [nm](std::tuple<int64_t, int64_t, int64_t, int64_t> t) { return Op{nm, {std::get<0>(t), std::get<1>(t), std::get<2>(t), std::get<3>(t)}}; });
   };
   // one mandatory batch (an op list may come out empty) followed by a size-scaled list of further update / merge batches
-  auto ops = rc::gen::map(rc::gen::tuple(choose({{4, mk("u")}, {1, mk("m")}}), oplist(choose({{3, mk("u")}, {1, mk("m")}}), 1, 0.05)),
+  auto ops = rc::gen::map(rc::gen::tuple(choose({{4, mk("u")}, {1, mk("m")}}), oplist(choose({{6, mk("u")}, {1, mk("m")}, {1, mk("mk")}}), 1, 0.05)),
                           [](std::tuple<Op, std::vector<Op>> t) { std::vector<Op> v; v.push_back(std::get<0>(t)); for (auto& o : std::get<1>(t)) v.push_back(o); return v; });
   long only = env_long("C10_FAM", -1);  // development aid (mutant runs): restrict the family
   return make_case({{"fam", only >= 0 ? range(only, only) : range(0, fam::NFAM - 1)}, {"a", range(0, 1 << 16)}, {"b", range(0, 1 << 16)}, {"c", range(0, 1 << 16)},
-                    {"seed", rc::gen::weightedOneOf<int64_t>({{3, rc::gen::just<int64_t>(0)}, {1, range(1, 1000)}})}, {"rnd", range(1, 1 << 20)}, {"pre", range(0, 3)}},
+                    {"seed", rc::gen::weightedOneOf<int64_t>({{3, rc::gen::just<int64_t>(0)}, {1, range(1, 1000)}})}, {"rnd", range(1, 1 << 20)}, {"pre", range(0, 3)}, {"t", range(0, 1)}, {"ls", range(0, 1)}},
                    ops);
 }
 
